@@ -92,6 +92,8 @@ C02f(line, pre) ==
                  THEN {"C02:cooldown-below-min"} ELSE {})
          \cup (IF InCoolDown(pre, g) /\ ListedOK(line, g) /\ \E n \in Listed(pre, g) : Removable(pre, g, n) THEN {"C02:cooldown-removable"} ELSE {})
          \cup (IF ~InCoolDown(pre, g) /\ pre.groups[g].accepted > Never /\ WriteCalls(line, g) # <<>> THEN {"C02:acts-after-cooldown"} ELSE {})
+         \cup (IF InCoolDown(pre, g) /\ Scanned(line, g) /\ \E i \in 1..Len(line.calls) : line.calls[i].op = "describe_asgs" /\ ~line.calls[i].ok
+                 THEN {"C02:refresh-failed-in-cooldown"} ELSE {})
          \cup (IF "twin" \in DOMAIN line /\ ~InCoolDown(pre, g) /\ g \in DOMAIN line.twin.writes /\ line.twin.writes[g] > 0 THEN {"C02:twin-acts"} ELSE {})
         : g \in Groups(pre)}
 
